@@ -73,6 +73,54 @@ theorem Descs2.padOk_of_noSizePadding (ds : List Desc2) (h : ∀ e ∈ Descs2.la
 theorem Descs2.padOk_of_disj (ds : List Desc2) (h : LDisj2 (Descs2.layout ds)) : Descs2.padOk ds :=
   PadOk_of_disj _ _ ((LDisj2_iff _).mp h) (fun _ _ _ _ hf => hf)
 
+/-! ### a decidable sufficient condition for `padOk`: byte ranges -/
+
+/-- the byte ranges of two entries do not meet -/
+def Ent2.byteDisj (e1 e2 : Ent2) : Bool := decide (e1.pos + e1.k ≤ e2.pos ∨ e2.pos + e2.k ≤ e1.pos)
+
+/-- every entry lies within its bytes, and the byte range of every `sizePadding` entry misses the byte ranges of all entries
+    before it (`prev`: the entries before, in reverse order) -/
+def padOkB : List Ent2 → List Ent2 → Bool
+  | [], _ => true
+  | e :: L, prev =>
+    decide (e.bl + e.bp ≤ 8 * e.k) && (decide (e.role ≠ .sizePadding) || prev.all (fun p => p.byteDisj e)) && padOkB L (e :: prev)
+
+theorem padOk_of_B : (L prev : List Ent2) → (U : Nat → Prop) → (∀ a, U a → ∃ p ∈ prev, p.claims a) →
+    (∀ p ∈ prev, p.geo.wf) → padOkB L prev = true → PadOk L U
+  | [], _, _, _, _, _ => trivial
+  | e :: L, prev, U, hU, hwf, hB => by
+    simp only [padOkB, Bool.and_eq_true, Bool.or_eq_true, decide_eq_true_eq] at hB
+    obtain ⟨⟨hewf, hc⟩, hrest⟩ := hB
+    refine ⟨?_, padOk_of_B L (e :: prev) _ ?_ ?_ hrest⟩
+    · intro hs a hca hu
+      rcases hc with hc | hc
+      · exact hc hs
+      · obtain ⟨p, hp, hpa⟩ := hU a hu
+        have hd := List.all_eq_true.mp hc p hp
+        simp only [Ent2.byteDisj, decide_eq_true_eq] at hd
+        have h1 := Ent.claims_bytes p.geo (hwf p hp) a hpa
+        have h2 := Ent.claims_bytes e.geo hewf a hca
+        have e1 : p.geo.pos = p.pos := rfl
+        have e2 : p.geo.k = p.k := rfl
+        have e3 : e.geo.pos = e.pos := rfl
+        have e4 : e.geo.k = e.k := rfl
+        omega
+    · intro a ha
+      rcases ha with ha | ha
+      · obtain ⟨p, hp, hpa⟩ := hU a ha
+        exact ⟨p, List.mem_cons_of_mem _ hp, hpa⟩
+      · exact ⟨e, List.mem_cons_self .., ha⟩
+    · intro p hp
+      rcases List.mem_cons.mp hp with rfl | hp
+      · exact hewf
+      · exact hwf p hp
+
+/-- the check on the layout of a request / response -/
+def Descs2.padCheck (ds : List Desc2) : Bool := padOkB (Descs2.layout ds) []
+
+theorem Descs2.padOk_of_check (ds : List Desc2) (h : Descs2.padCheck ds = true) : Descs2.padOk ds :=
+  padOk_of_B _ [] _ (fun _ hf => hf.elim) (fun _ hp => nomatch hp) h
+
 /-! ### the layout of the new constructs (all by `rfl`) -/
 
 /-- a terminated MIN-MAX-LENGTH value at `p = posOf bytePos org c`: the payload, then the termination sequence -/
@@ -159,5 +207,117 @@ example : Descs2.layout exBits2 =
      ⟨.value, "id", 21, 1, true, 0, 8, 2⟩, ⟨.value, "v", 22, 1, true, 0, 8, 0x22⟩, ⟨.sizePadding, "", 23, 1, true, 0, 8, 0⟩] := by
   decide +kernel
 example : Descs2.extent exBits2 = 24 ∧ Descs2.endCursor exBits2 = 24 := by decide +kernel
+
+/-! the example is well-formed -/
+theorem wf2_byte (n : String) (bp : Option Nat) (v : Int) (h0 : 0 ≤ v) (h1 : v < 256) :
+    (Desc2.value ⟨n, bp, none, none, true, 8, .uint32⟩ (.int v)).wf := by
+  simp only [Desc2.wf]
+  exact ⟨by simp [Obj.ok, Obj.encOk, Obj.sizeOk], by simp [Obj.inRange]; omega⟩
+
+theorem b2Em_ok : b2Em.ok := ⟨by simp [EmLayout.obj, b2Em, Obj.ok, Obj.encOk, Obj.sizeOk], by simp [EmLayout.obj, b2Em, Obj.inRange]⟩
+theorem b2Tl_ok : b2Tl.ok := ⟨by simp [EmLayout.obj, b2Tl, Obj.ok, Obj.encOk, Obj.sizeOk], by simp [EmLayout.obj, b2Tl, Obj.inRange]⟩
+theorem b2S_ok : b2S.okMid :=
+  ⟨⟨⟨allBytes_of_all _ (by decide), Or.inl ⟨rfl, rfl, Or.inl rfl⟩⟩, by decide, fun mx h => by cases h; decide, fun _ => by decide⟩,
+    by decide, by decide, by decide, fun mx h => by cases h; decide⟩
+theorem b2L_ok : b2L.ok :=
+  ⟨by decide, by decide, by decide, ⟨allBytes_of_all _ (by decide), Or.inl ⟨rfl, rfl, Or.inl rfl⟩⟩, rfl⟩
+
+theorem b2EmItem_side (id : Int) (hid : id ≠ 0xFF) :
+    itemSideS none (Descs2.params (b2EmItem 0)) (Descs2.mcs (b2EmItem id)) ∧
+      1 ≤ (DComp.structO none (MComps.cs (Descs2.mcs (b2EmItem id)))).size ∧
+      b2Em.miss (DComp.structO none (MComps.cs (Descs2.mcs (b2EmItem id)))) :=
+  ⟨⟨rfl, bNames1 _, rfl, fun _ h => nomatch h⟩, Nat.le_refl 1, EmLayout.miss_of_first b2Em "id" id [] hid⟩
+
+theorem wf_b2EmField : b2EmField.wf := by
+  simp only [b2EmField, Desc2.wf, Descss2.wf, Descs2.wf, Descss2.mcss]
+  exact ⟨⟨⟨wf2_byte "id" none 1 (by decide) (by decide), trivial⟩, ⟨wf2_byte "id" none 2 (by decide) (by decide), trivial⟩, trivial⟩,
+    b2Em_ok, forall_mem2' _ _ (b2EmItem_side 1 (by decide)) (b2EmItem_side 2 (by decide))⟩
+
+theorem wf_b2St : b2St.wf := by
+  simp only [b2St, Desc2.wf, Descs2.wf]
+  refine ⟨⟨b2S_ok, b2L_ok, wf_b2EmField, wf2_byte "z" (some 10) 0x5A (by decide) (by decide), trivial⟩, ?_, ⟨rfl, rfl, rfl, trivial⟩,
+    fun _ h => nomatch h⟩
+  simp [Comps.namesOk, Descs2.comps, Descs2.mcs, Desc2.mc, MComps.cs, Comp.name, Param.name, Comp.ofMinMaxMid, Comp.ofMItem,
+    Comp.ofGItem, MMLeaf.toMid, MMLeaf.toParam, b2S, Comp.ofLeading, LeadLeaf.toG, LeadLeaf.toParam, b2L, b2EmField, Comp.ofValue,
+    Comp.ofObjValue, Obj.toParam]
+
+theorem wf_b2Hdr : b2Hdr.wf := by
+  simp only [b2Hdr, Desc2.wf, Descs2.wf]
+  exact ⟨⟨wf2_byte "n" none 7 (by decide) (by decide), trivial⟩, bNames1 _, trivial, fun bs h => by cases h; exact ⟨by decide, rfl⟩⟩
+
+theorem b2TailItem_side (id v : Int) (hid : id ≠ 0) :
+    itemSideS (some 3) (Descs2.params (b2TailItem 0 0)) (Descs2.mcs (b2TailItem id v)) ∧
+      1 ≤ (DComp.structO (some 3) (MComps.cs (Descs2.mcs (b2TailItem id v)))).size ∧
+      b2Tl.miss (DComp.structO (some 3) (MComps.cs (Descs2.mcs (b2TailItem id v)))) :=
+  ⟨⟨rfl, bNames2 _ _ (by show "id" ≠ "v"; decide), rfl, fun bs h => by cases h; exact ⟨by show 2 ≤ 3; omega, rfl⟩⟩,
+    by show 1 ≤ 3; omega,
+    EmLayout.miss_withByteSize b2Tl 3 _ _ (EmLayout.miss_of_first b2Tl "id" id [Comp.ofObjValue (bU8 "v") (.int v)] hid)⟩
+
+theorem wf_b2Tail : b2Tail.wf := by
+  simp only [b2Tail, Desc2.wf, Descss2.wf, Descs2.wf, Descss2.mcss]
+  refine ⟨⟨⟨wf2_byte "id" none 1 (by decide) (by decide), wf2_byte "v" none 0x11 (by decide) (by decide), trivial⟩,
+    ⟨wf2_byte "id" none 2 (by decide) (by decide), wf2_byte "v" none 0x22 (by decide) (by decide), trivial⟩, trivial⟩,
+    b2Tl_ok, forall_mem2' _ _ (b2TailItem_side 1 0x11 (by decide)) (b2TailItem_side 2 0x22 (by decide)), ?_⟩
+  intro k hk
+  have : k = Descs2.mcs (b2TailItem 2 0x22) := by simpa using hk.symm
+  subst this; rfl
+
+theorem exBits2_ok : Descs2.ok (some b2Trig) exBits2 := by
+  refine ⟨⟨?_, ⟨rfl, allBytes_of_all _ (by decide), by decide, by decide, by decide⟩, wf_b2Hdr, wf_b2St, wf_b2Tail, trivial⟩, ?_,
+    ⟨rfl, rfl, rfl, rfl, trivial⟩, rfl, by decide⟩
+  · show (bU8 "sid").ok ∧ (bU8 "sid").inRange (.int 0x62)
+    exact ⟨bU8_ok _, bU8_range _ _ (by decide) (by decide)⟩
+  · simp [Comps.namesOk, exBits2, Descs2.comps, Descs2.mcs, Desc2.mc, MComps.cs, Comp.name, Param.name, Comp.ofObjConst,
+      Obj.toConstParam, Comp.matchingReq, b2Hdr, b2St, b2Tail, Comp.ofValue, bU8]
+
+/-- no BYTE-SIZE padding of the example hits an earlier entry -/
+theorem exBits2_padOk : Descs2.padOk exBits2 := Descs2.padOk_of_check _ (by decide +kernel)
+
+/-- **the theorem applies to the example**: all conclusions hold of the concrete PDU -/
+example : ((∀ e ∈ Descs2.layout exBits2, ∀ j, j < e.bl → getBit exBits2Pdu (absBit e.pos e.k e.hl (j + e.bp)) = e.raw.testBit j) ∧
+      LDisj2 (Descs2.layout exBits2)) ∧
+    (∀ a, (∀ e ∈ Descs2.layout exBits2, ¬ e.claims a) → getBit exBits2Pdu a = false) ∧
+    exBits2Pdu.length = Descs2.extent exBits2 :=
+  have h := C02_bit_exact_nested2 exBits2 (some b2Trig) exBits2_ok _ exBits2_pdu
+  ⟨h.1 exBits2_padOk, h.2⟩
+
+/-! ### the excluded point of `padOk` — finding `byte-size-padding-claims-silently`
+    request = [ x @ BYTE-POSITION 2; st @ BYTE-POSITION 0 : STRUCTURE BYTE-SIZE 4 { a } ]: the padding of `st` (bytes 1–3) covers `x`
+    (byte 2), yet strict `encode` returns `07 00 5A 00` WITHOUT overlap warning (the STATIC-FIELD padding, written with
+    `emplace_bytes`, would warn).  So "a warning exactly when two described objects claim the same bit" fails when the
+    BYTE-SIZE padding counts as a described object. -/
+def exPadOverlap : List Desc2 :=
+  [.value ⟨"x", some 2, none, none, true, 8, .uint32⟩ (.int 0x5A), .struct "st" (some 0) (some 4) [.value (bU8 "a") (.int 7)]]
+
+theorem exPadOverlap_ok : Descs2.ok none exPadOverlap := by
+  refine ⟨⟨wf2_byte "x" (some 2) 0x5A (by decide) (by decide), ?_, trivial⟩, ?_, ⟨rfl, trivial⟩, rfl, by decide⟩
+  · show Desc2.wf (.struct "st" (some 0) (some 4) [.value (bU8 "a") (.int 7)])
+    simp only [Desc2.wf, Descs2.wf]
+    exact ⟨⟨wf2_byte "a" none 7 (by decide) (by decide), trivial⟩, bNames1 _, trivial, fun bs h => by cases h; exact ⟨by decide, rfl⟩⟩
+  · exact bNames2 _ _ (by decide)
+
+theorem exPadOverlap_layout : Descs2.layout exPadOverlap =
+    [⟨.value, "x", 2, 1, true, 0, 8, 0x5A⟩, ⟨.value, "a", 0, 1, true, 0, 8, 7⟩, ⟨.sizePadding, "", 1, 3, true, 0, 24, 0⟩] := by
+  decide +kernel
+
+/-- no warning although the padding entry and `x` both claim bit 16 -/
+theorem C02_bytesize_padding_silent :
+    encodeMessage none (Descs2.params exPadOverlap) (.dict (Descs2.supplied exPadOverlap)) none true = .ok ([0x07, 0x00, 0x5A, 0x00], 0) ∧
+    ¬ LDisj2 (Descs2.layout exPadOverlap) ∧ ¬ Descs2.padOk exPadOverlap := by
+  have hnd : ¬ LDisj2 (Descs2.layout exPadOverlap) := by
+    intro h
+    rw [exPadOverlap_layout] at h
+    have h1 := (List.pairwise_cons.mp h).1 ⟨.sizePadding, "", 1, 3, true, 0, 24, 0⟩ (by simp) 16
+    exact h1 ⟨⟨0, by decide, by decide⟩, ⟨8, by decide, by decide⟩⟩
+  refine ⟨Except.eq_ok_of_toOption' (by decide +kernel), hnd, ?_⟩
+  intro hp
+  obtain ⟨pdu, w, henc, _, hiff⟩ := C02_overlap_iff_nested2 exPadOverlap none exPadOverlap_ok
+  have hw : w = 0 := by
+    have h2 : encodeMessage none (Descs2.params exPadOverlap) (.dict (Descs2.supplied exPadOverlap)) none true
+        = .ok ([0x07, 0x00, 0x5A, 0x00], 0) := Except.eq_ok_of_toOption' (by decide +kernel)
+    rw [h2] at henc
+    simp only [Except.ok.injEq, Prod.mk.injEq] at henc
+    exact henc.2.symm
+  exact hnd ((hiff hp).mp hw)
 
 end OdxVerif.Codec
